@@ -105,6 +105,11 @@ def wfDiag {O : Type} [Bounded O] (maxC : Nat) : Nat → Node O → Option Strin
 termination_by _ n => sizeOf n
 decreasing_by subst hm; have := Entry.sizeOf_child_lt he; simp_wf; omega
 
+/-- one step of a history line: an operation, or (C12 lines) the j-th query of the `K` batch -/
+inductive HStep where
+  | op (name : String) (o : Op ObjRec)
+  | query (j : Nat)
+
 structure Hist where
   cls : String
   minC : Nat
@@ -112,17 +117,21 @@ structure Hist where
   kind : String
   pool : Array ObjRec
   ops : List (String × Op ObjRec)
+  steps : List HStep
   queries : List Box
   rest : Tok
 
-def pOps (pool : Array ObjRec) : Nat → Tok → Option (List (String × Op ObjRec) × Tok)
+def pOps (pool : Array ObjRec) : Nat → Tok → Option (List HStep × Tok)
   | 0, t => some ([], t)
   | n+1, s :: t => do
     let id ← ((s.drop 1).toString).toNat?
-    let o ← pool[id]?
-    let op ← if s.startsWith "I" then some (Op.ins o) else if s.startsWith "D" then some (Op.del o) else none
+    let st ← if s.startsWith "Q" then some (HStep.query id)
+      else do
+        let o ← pool[id]?
+        if s.startsWith "I" then some (HStep.op s (Op.ins o))
+        else if s.startsWith "D" then some (HStep.op s (Op.del o)) else none
     let (r, t) ← pOps pool n t
-    pure ((s, op) :: r, t)
+    pure (st :: r, t)
   | _, _ => none
 
 def pHist : Tok → Option Hist
@@ -133,12 +142,13 @@ def pHist : Tok → Option Hist
     match t with
     | "O" :: m :: t =>
       let m ← m.toNat?
-      let (ops, t) ← pOps pool m t
+      let (steps, t) ← pOps pool m t
+      let ops := steps.filterMap fun st => match st with | .op n o => some (n, o) | .query _ => none
       match t with
       | "Q" :: nq :: t =>
         let nq ← nq.toNat?
         let (qs, t) ← pBoxes nq t
-        pure ⟨cls, mn, mx, kind, pool, ops, qs, t⟩
+        pure ⟨cls, mn, mx, kind, pool, ops, steps, qs, t⟩
       | _ => none
     | _ => none
   | _ => none
